@@ -550,7 +550,14 @@ def scheduled_run(case, chooser):
             if body:
                 fail("C12/crosstalk", "notification connection %d received a body %r" % (i, body[:100]))
             continue
-        reply = json.loads(body.decode("utf-8"))
+        try:
+            reply = json.loads(body.decode("utf-8"))
+        except ValueError:
+            fail("C12/crosstalk", "connection %d (%s) received a body that is not JSON: %r" % (i, kind, body[:120]))
+        if kind == "batch" and (not isinstance(reply, list) or any(not isinstance(r, dict) for r in reply)):
+            fail("C12/crosstalk", "batch connection %d received %r" % (i, reply))
+        if kind != "batch" and not isinstance(reply, dict):
+            fail("C12/crosstalk", "connection %d (%s) received %r" % (i, kind, reply))
         if kind in ("echo", "echo1") and (reply.get("id") != tok or reply.get("result") != tok):
             fail("C12/crosstalk", "connection %d sent %r and received %r" % (i, tok, reply))
         if kind == "echo1" and ("jsonrpc" in reply or "error" not in reply):
